@@ -1,7 +1,7 @@
 --------------------------- MODULE SpecPropertyOps ---------------------------
 (* Reference semantics of spec_property and classproperty (property C12).
 
-   spec_property:  cfg = [ov, cache, fset, fdel : BOOLEAN, host : "plain" | "unmanaged" | "managed"]
+   spec_property:  cfg = [ov, cache, fset, fdel : BOOLEAN, host : "plain" | "unmanaged" | "managed" | "items"]
      operational state  st = [entry, under, backing]
         entry   : the instance-dict slot named after the property (override or cache) or N
         under   : the state the getter reads (0, 1, 2)
@@ -14,11 +14,15 @@ EXTENDS Integers, Sequences, FiniteSets
 N     == [t |-> "none"]
 I(n)  == [t |-> "int", i |-> n]
 S(s)  == [t |-> "str", s |-> s]
+PN    == [t |-> "pynone"]      \* the Python value None as an override / getter result (N is "nothing stored")
+EL    == [t |-> "elist"]       \* the empty list (host "items": None assigned to a collection-typed attribute becomes an empty collection)
 
 \* ------------------------------------------------------------------ spec_property
+\* host "items": the managed annotation is List[int] with an ELEMENT preparer only (no _prepare_p); the abstract value n stands for the list [n]
+Managed(cfg)  == cfg.host \in {"managed", "items"}
 Getter(u)     == IF u = 2 THEN S("bad") ELSE I(10 + u)            \* under = 2 makes the getter ill-typed
-Prep(cfg, v)  == IF cfg.host = "managed" /\ v.t = "int" THEN I(v.i + 100) ELSE v   \* _prepare_p on a managed host
-Conf(cfg, v)  == cfg.host # "managed" \/ v.t = "int"              \* declared type of the managed attribute: int
+Prep(cfg, v)  == IF cfg.host = "items" /\ v = PN THEN EL ELSE IF Managed(cfg) /\ v.t = "int" THEN I(v.i + 100) ELSE v   \* _prepare_p / _prepare_p_item on a managed host
+Conf(cfg, v)  == ~Managed(cfg) \/ v.t = "int" \/ (cfg.host = "items" /\ v = EL)   \* declared type of the managed attribute: int (List[int] on host "items")
 Res(st, res, val) == [st |-> st, res |-> res, val |-> val]
 
 SPRead(Dev, cfg, st) ==
@@ -29,7 +33,7 @@ SPRead(Dev, cfg, st) ==
 
 SPAssign(Dev, cfg, st, v) ==
   LET pv == Prep(cfg, v) IN
-  IF ~Conf(cfg, pv) THEN Res(st, "TypeError", N)                   \* spec-class assignment is type checked first
+  IF ~Conf(cfg, pv) THEN Res(st, IF cfg.host = "items" THEN "ValueError" ELSE "TypeError", N)   \* (an ill-typed ELEMENT is a ValueError)                 \* spec-class assignment is type checked first
   ELSE IF cfg.fset THEN Res([st EXCEPT !.backing = pv], "ok", N)   \* only the user's setter runs
   ELSE IF cfg.ov \/ "assign_unguarded" \in Dev THEN Res([st EXCEPT !.entry = pv], "ok", N)
   ELSE Res(st, "AttributeError", N)
@@ -40,7 +44,14 @@ SPDelete(Dev, cfg, st) ==
        THEN Res(IF "delete_keeps_cache" \in Dev /\ ~cfg.ov THEN st ELSE [st EXCEPT !.entry = N], "ok", N)
   ELSE Res(st, "AttributeError", N)
 
+\* frozen host (a frozen spec class): every mutator is refused and changes nothing; reading (and thereby filling the cache) is fine.
+\* cfg.initov: the instance was constructed with a value for the (managed) property, i.e. it starts out overridden.
+IsFrozen(cfg) == "frozen" \in DOMAIN cfg /\ cfg.frozen
+InitOv(cfg)   == "initov" \in DOMAIN cfg /\ cfg.initov
+SPInit(cfg)   == [entry |-> IF InitOv(cfg) THEN Prep(cfg, I(5)) ELSE N, under |-> 0, backing |-> N]
+GInit(cfg)    == [ov |-> IF InitOv(cfg) THEN Prep(cfg, I(5)) ELSE N, ca |-> N]
 SPStep(Dev, cfg, st, a) ==
+  IF IsFrozen(cfg) /\ a.op # "read" /\ "frozen_delete_unguarded" \notin Dev THEN Res(st, "FrozenInstanceError", N) ELSE
   CASE a.op = "read"   -> SPRead(Dev, cfg, st)
     [] a.op = "assign" -> SPAssign(Dev, cfg, st, a.v)
     [] a.op = "delete" -> SPDelete(Dev, cfg, st)
@@ -57,14 +68,14 @@ Ghost(cfg, g, a, res, val) ==
     [] a.op = "assign" -> IF res = "ok" /\ ~cfg.fset THEN [g EXCEPT !.ov = Prep(cfg, a.v)] ELSE g
     [] a.op = "delete" -> IF res = "ok" /\ ~cfg.fdel THEN [ov |-> N, ca |-> N] ELSE g
     [] a.op = "under"  -> g
-MayAssign(cfg) == cfg.ov \/ cfg.fset
+MayAssign(cfg) == (cfg.ov \/ cfg.fset) /\ ~IsFrozen(cfg)
 \* deletion must raise when there is neither override nor cache (and no user deleter)
 MustRaiseOnDelete(cfg, g) == ~cfg.fdel /\ g.ov = N /\ (g.ca = N \/ ~cfg.cache)
 
 \* ------------------------------------------------------------------ classproperty over Base <- Mid <- Leaf
 Classes == <<"Base", "Mid", "Leaf">>
 Tag(c)  == CASE c = "Base" -> 1 [] c = "Mid" -> 2 [] c = "Leaf" -> 3
-CGetter(c, u) == I(Tag(c) * 10 + u)
+CGetter(c, u) == IF u = 2 THEN PN ELSE I(Tag(c) * 10 + u)        \* under = 2: the getter returns None
 CKey(cfg, c)  == IF cfg.per THEN c ELSE "shared"
 CPRead(cfg, st, c) ==
   LET k == CKey(cfg, c) IN
